@@ -124,6 +124,7 @@ type T struct {
 	assignEmits map[string]*Emit
 	maps        map[string]*MapSpec
 	hoisted     map[ast.Expr][2]string // oracle calls inside a condition, already bound to a name
+	allowSets   bool                   // a call with `sets` is being translated as a whole right-hand side / return operand
 	allowEmit   bool                   // a call with an `emit` is being translated as a whole right-hand side
 }
 
